@@ -35,7 +35,11 @@ def main():
         finally:
             shutil.rmtree(root)
         failed = [o for o in r.obligations if o["result"] != "unsat"]
-        if r.error:
+        if r.error and m.get("expect") == "not-decided":
+            # the change leaves the verified subset (e.g. a call no longer has the form its assumed contract describes): the
+            # proof refuses to decide (exit 3 / bounded search in the check) rather than silently passing
+            print(f"REFUSED {m['fn']}: {r.error[1][:90]}  ({m['why']})")
+        elif r.error:
             print(f"ERROR   {m['fn']}: {r.error}  ({m['why']})"); bad += 1
         elif failed:
             kinds = sorted({o['name'].split('/')[-1].split('@')[0] for o in failed})
